@@ -3,7 +3,7 @@ Because expected outcomes are derived from the plan by the engine's model, editi
 generator and oracle in step; a candidate on which the engine itself errs is simply rejected."""
 import copy
 
-PROTECTED_KEYS = {'format', 'property', 'engine', 'run_seed', 'tier', 'entry', 'violation', 'argv', 'fingerprint',
+PROTECTED_KEYS = {'format', 'property', 'engine', 'run_seed', 'tier', 'entry', 'violation', 'argv', 'fingerprint', 'spec',
                   'ending'}
 
 
